@@ -81,5 +81,5 @@ Definition selftest : list (nat * Z) :=
                {| w_prefix := []; w_min := 1; w_helpers := [LLoad; LCas; LClean; LNotify]; w_obs := 2 |};
                {| w_prefix := []; w_min := 1; w_helpers := [PClose1; PClose2]; w_obs := 2 |};
                {| w_prefix := []; w_min := 1; w_helpers := [SClose]; w_obs := 3 |};
-               {| w_prefix := [EAdd 4; EFin]; w_min := 8; w_helpers := [LDefer1; LDefer2; SClose; LLoad; LCas; LClean; LNotify]; w_obs := 2 |};
-               {| w_prefix := [EAdd 4; EFin]; w_min := 8; w_helpers := [LDefer1; LDefer2]; w_obs := 2 |} ].
+               {| w_prefix := [EAdd 4; EFin]; w_min := 8; w_helpers := [LDefer1; LDefer2; SClose; LLoad; LCas; LClean; LNotify]; w_obs := 3 |};
+               {| w_prefix := [EAdd 4; EFin]; w_min := 8; w_helpers := [LDefer1; LDefer2]; w_obs := 3 |} ].
